@@ -1148,6 +1148,13 @@ Proof. intros ch v cb kont Hk. unfold chan_send_code. cbv zeta. lg_auto. Qed.
 Lemma chan_recv_code_lg : forall ch cb kont, (forall r, lg J (kont r)) -> lg J (chan_recv_code ch cb kont).
 Proof. intros ch cb kont Hk. unfold chan_recv_code. cbv zeta. lg_auto. Qed.
 
+Lemma recv_all_code_lg : forall n ch k, lg J k -> lg J (recv_all_code n ch k).
+Proof.
+  induction n as [|n IHn]; intros ch k Hk; cbn [recv_all_code]; [lg_log99; apply lg_panic|].
+  apply chan_recv_code_lg. intros res. destruct res; try (lg_log99; apply IHn; exact Hk);
+    (lg_log99; apply lg_atomic_u; lg_log99; exact Hk).
+Qed.
+
 Lemma barrier_wait_code_lg : forall b kont, (forall r, lg J (kont r)) -> lg J (barrier_wait_code b kont).
 Proof.
   intros b kont Hk. unfold barrier_wait_code. apply lg_atomic_b; intros wb. apply lg_switch_if.
@@ -1368,6 +1375,9 @@ Proof.
     + (* PAcqDrop *)
       unfold acq_drop_code. apply lg_atomic; intros a.
       repeat first [ lg_log99; apply IHr | (apply sem_release_code_lg; lg_log99; apply IHr) | lg_step ].
+    + (* PRecvAll *)
+      apply lg_atomic_b. intros alive. destruct alive; [|apply lg_panic].
+      apply recv_all_code_lg. apply IHr.
 Qed.
 
 (* every program of Lang/Prog.v records a join only right after the last block of that join *)
